@@ -313,7 +313,7 @@ pub fn token_location(sources: &[(Xstr, Xstr)], token: &Xsubstr) -> Option<Token
     let par = token.parent();
     let mut it = par.char_indices();
     let mut start = 0;
-    let mut end = 1;
+    let mut end = 0;
     let mut line = 0;
     let mut col = 0;
     while let Some((i, c)) = it.next() {
